@@ -44,7 +44,7 @@ var faceLabel = map[uint64]string{fwsim.L1: "L1", fwsim.N2: "N2", fwsim.N3: "N3"
 type iOp struct {
 	face  uint64
 	name  string
-	nonce string // fresh | dup | none
+	nonce string // fresh | dup (the latest nonce issued for the name) | old (the one issued before that) | none
 	hl    int    // -1 absent
 	hint  string // "" | in | out
 	nh    string // "" | N2 | self | missing
@@ -111,7 +111,8 @@ type slice struct {
 	dops      []dOp
 	tops      []time.Duration
 	fops      []fOp
-	deep      []string // labels of ops placed first (simplest first); the rest follow
+	deep      []string      // labels of ops placed first (simplest first); the rest follow
+	dnlLife   time.Duration // configured dead-nonce-list lifetime (0 = 6 s as shipped)
 }
 
 func prod(faces []uint64, names []string, f func(face uint64, name string) []iOp) (out []iOp) {
@@ -221,6 +222,19 @@ var slices = map[string]slice{
 		dops:   []dOp{{fwsim.N2, "/a", "none"}, {fwsim.N2, "/a", "echo0"}},
 		tops:   []time.Duration{100 * time.Millisecond, 600 * time.Millisecond},
 	},
+	// dead nonces over a tiny alphabet, explored deep: one name, a consumer that retransmits with
+	// fresh nonces (forwarded / aggregated / replaced) and can repeat the nonce issued BEFORE its
+	// latest one, a second face on which that older nonce and the latest one come back, Data, clock
+	// steps on both sides of the suppression window; the dead nonce list is CONFIGURED with a 1 s
+	// lifetime so that records are made, absorbed, expire and are made again within a few steps
+	"dead": {
+		routes: []fwsim.Route{{Prefix: "/a", Face: fwsim.N2, Cost: 1}, {Prefix: "/a", Face: fwsim.N3, Cost: 2}},
+		iops: []iOp{{face: fwsim.L1, name: "/a", nonce: "fresh", hl: -1}, {face: fwsim.L1, name: "/a", nonce: "old", hl: -1},
+			{face: fwsim.N4, name: "/a", nonce: "old", hl: -1}, {face: fwsim.N4, name: "/a", nonce: "dup", hl: -1}},
+		dops:    []dOp{{fwsim.N2, "/a", "none"}},
+		tops:    []time.Duration{100 * time.Millisecond, 600 * time.Millisecond},
+		dnlLife: time.Second,
+	},
 	// consumer-chosen next hop on a face with local fields (L1) and on one without (N3):
 	// NextHopFaceId naming N2, the arrival face itself, a face that does not exist
 	"nexthop": {
@@ -260,6 +274,7 @@ type sys struct {
 	defs    map[string]opDef
 	allOps  []explore.Op
 	uni     bool
+	old     bool // the alphabet repeats the nonce before the latest one
 }
 
 type inst struct {
@@ -284,6 +299,13 @@ func otherStrategy(mc bool) string {
 
 func build(cfgName string) explore.System {
 	debug.SetGCPercent(400)
+	// stored counterexamples name the configuration by its display name
+	if i := strings.Index(cfgName, "(no dedup) "); i >= 0 {
+		cfgName = cfgName[i+len("(no dedup) "):]
+	}
+	if strings.HasPrefix(cfgName, "dnl ") {
+		return buildDnl(cfgName)
+	}
 	var sl, st, cs, fib string
 	if _, err := fmt.Sscanf(cfgName, "%s %s %s %s", &sl, &st, &cs, &fib); err != nil {
 		report.Fatal("bad config name %q", cfgName)
@@ -306,7 +328,10 @@ func build(cfgName string) explore.System {
 		report.Fatal("unknown slice %q", sl)
 	}
 	s := &sys{cfgName: cfgName, defs: map[string]opDef{}, uni: slc.universes || slc.costs}
-	s.cfg = fwsim.Config{Routes: slc.routes, Regions: regions}
+	s.cfg = fwsim.Config{Routes: slc.routes, Regions: regions, DnlLifetime: slc.dnlLife}
+	for _, o := range slc.iops {
+		s.old = s.old || o.nonce == "old"
+	}
 	switch st {
 	case "br":
 		s.cfg.Strategies = []fwsim.StrategyChoice{{Prefix: "/", Strategy: fwsim.BestRoute}}
@@ -411,6 +436,7 @@ func build(cfgName string) explore.System {
 func (s *sys) New() any {
 	in := &inst{sim: fwsim.New(s.cfg)}
 	in.ref = newRef(s.cfg)
+	in.ref.trackPrev = s.old
 	in.refresh()
 	return in
 }
@@ -444,6 +470,11 @@ func (s *sys) Ops(i any) []explore.Op {
 		}
 		if d.i != nil && d.i.nonce == "dup" {
 			if _, ok := in.ref.lastNonce[d.i.name]; !ok {
+				continue
+			}
+		}
+		if d.i != nil && d.i.nonce == "old" {
+			if _, ok := in.ref.prevNonce[d.i.name]; !ok {
 				continue
 			}
 		}
@@ -502,6 +533,8 @@ func (s *sys) step(in *inst, op explore.Op) (v []report.Violation) {
 			nonce = 0x3000 + r.nonceCtr
 		case "dup":
 			nonce = r.lastNonce[o.name]
+		case "old":
+			nonce = r.prevNonce[o.name]
 		case "none":
 			hasNonce = false
 		}
@@ -544,8 +577,7 @@ func (s *sys) step(in *inst, op explore.Op) (v []report.Violation) {
 		in.refresh()
 		v = r.noInterest(sends, "the periodic reaper")
 	}
-	r.sync(in, d.d != nil)
-	return v
+	return append(v, r.sync(in, d.d != nil)...)
 }
 
 // CheckState is the second half of C02.token: a Data echoing the token attached to a pending
@@ -616,6 +648,9 @@ func (s *sys) Canon(i any) string {
 		if l, ok := r.lastNonce[name]; ok && l == n {
 			return "L"
 		}
+		if p, ok := r.prevNonce[name]; ok && p == n {
+			return "P"
+		}
 		return "o"
 	}
 	var b strings.Builder
@@ -660,10 +695,25 @@ func (s *sys) Canon(i any) string {
 		nn = append(nn, n)
 	}
 	sort.Strings(nn)
+	_, dnlQ := table.VerifDnlDump(in.sim.Thread.VerifDnl())
 	for _, n := range nn {
 		fmt.Fprintf(&b, "N[%s", n)
 		if t, ok := r.deadSince[n]; ok {
 			fmt.Fprintf(&b, " dead=%s", fwsim.Saturate(now.Sub(t), 0, 7*time.Second))
+		}
+		if _, ok := r.prevNonce[n]; ok {
+			b.WriteString(" P")
+			if t, ok := r.deadSincePrev[n]; ok {
+				fmt.Fprintf(&b, " dead=%s", fwsim.Saturate(now.Sub(t), 0, 7*time.Second))
+			}
+		}
+		// the private expiry-queue items of the dead nonce list that concern a repeatable nonce
+		for _, it := range dnlQ {
+			if it.Key == table.VerifDnlKey(fwsim.Name(n), r.lastNonce[n]) {
+				fmt.Fprintf(&b, " qL@%s", fwsim.Saturate(time.Duration(it.Prio-now.UnixNano()), -1, 7*time.Second))
+			} else if p, ok := r.prevNonce[n]; ok && it.Key == table.VerifDnlKey(fwsim.Name(n), p) {
+				fmt.Fprintf(&b, " qP@%s", fwsim.Saturate(time.Duration(it.Prio-now.UnixNano()), -1, 7*time.Second))
+			}
 		}
 		b.WriteString("]")
 	}
@@ -696,9 +746,35 @@ func configs(th bool) []explore.Config {
 		}
 		c = append(c, explore.Config{Name: fmt.Sprintf("%s %s %s %s", sl, st, cs, fib), MaxDepth: devDepth(depth), MaxDev: -1})
 	}
+	// the dead nonce list on its own (dnl.go): with de-duplication over the full alphabet, and a
+	// history search WITHOUT de-duplication over the tiny one; two configured lifetimes
+	dnl := func(variant, life string, depth int, nodedup bool) {
+		if only := os.Getenv("VERIF_ONLY"); only != "" && only != "dnl" {
+			return
+		}
+		b := fmt.Sprintf("dnl %s L=%s", variant, life)
+		if nodedup {
+			c = append(c, explore.Config{Name: "history search (no dedup) " + b, BuildName: b, MaxDepth: devDepth(depth), MaxDev: -1, NoDedup: true})
+		} else {
+			c = append(c, explore.Config{Name: b, MaxDepth: devDepth(depth), MaxDev: -1})
+		}
+	}
+	if !th {
+		dnl("full", "6s", 10, false) // reaches its fixpoint at depth 9
+		dnl("full", "600ms", 10, false)
+		dnl("tiny", "6s", 6, true)
+	} else {
+		dnl("full", "6s", 12, false)
+		dnl("full", "600ms", 12, false)
+		dnl("full", "100ms", 10, false)
+		dnl("tiny", "6s", 7, true)
+		dnl("tiny", "600ms", 7, true)
+	}
 	if !th {
 		// every slice under both strategies; cache and FIB implementation rotate so that each of
 		// the eight combinations is used by at least one slice (route: universe choice + 3 steps)
+		add("dead", "br", "cs0", "tree", 10)
+		add("dead", "mc", "cs1", "ht", 9)
 		add("nexthop", "br", "cs1", "tree", 7)
 		add("nexthop", "mc", "cs0", "ht", 7)
 		add("adhoc", "br", "cs0", "tree", 5)
@@ -731,9 +807,11 @@ func configs(th bool) []explore.Config {
 	for _, b := range []string{"tiny br cs0 tree", "tiny mc cs1 ht", "tiny mc cs0 tree", "tiny br cs1 ht"} {
 		c = append(c, explore.Config{Name: "history search (no dedup) " + b, BuildName: b, MaxDepth: 7, MaxDev: -1, NoDedup: true})
 	}
+	c = append(c, explore.Config{Name: "history search (no dedup) dead br cs0 tree", BuildName: "dead br cs0 tree", MaxDepth: 7, MaxDev: -1, NoDedup: true})
 	for _, st := range []string{"br", "mc"} {
 		for _, cs := range []string{"cs0", "cs1"} {
 			for _, fib := range []string{"tree", "ht"} {
+				add("dead", st, cs, fib, 13)
 				add("nexthop", st, cs, fib, 8)
 				add("adhoc", st, cs, fib, 6)
 				add("nonce", st, cs, fib, 6)
@@ -766,16 +844,16 @@ func main() {
 			for _, c := range []struct {
 				cfg   string
 				depth int
-			}{{"nonce br cs0 tree", 3}, {"hint mc cs0 tree", 2}, {"hop mc cs0 tree", 2}, {"nexthop br cs0 tree", 3}, {"adhoc mc cs0 tree", 3}} {
+			}{{"nonce br cs0 tree", 3}, {"hint mc cs0 tree", 2}, {"hop mc cs0 tree", 2}, {"nexthop br cs0 tree", 3}, {"adhoc mc cs0 tree", 3}, {"dead br cs0 tree", 4}, {"dnl full L=6s", 4}, {"dnl tiny L=600ms", 6}} {
 				o[fmt.Sprintf("%s (all histories of length %d, before de-duplication)", c.cfg, c.depth)] = sweep(rep, c.cfg, c.depth)
 			}
 			cov["oracle_branches_exercised"] = o
 		},
-		Rule: "BFS over histories of Interest arrivals (names /a,/a/b,/c; nonce fresh|repeated|absent; hop limit absent|0|1|2; forwarding hint none|in-region|in-nested-region|out-of-region|(out,in)|(in,out)|(out,out'), producer regions [/r], [/r/site,/r], [/r,/r/site]; NextHopFaceId none|N2|self|missing on a face with and one without consumer-controlled forwarding; local, non-local and ad-hoc arrival faces), Data arrivals (by name, echoing a live token), clock steps 100/400/600 ms and 5 s, and FIB/strategy changes between packets (AddRoute, RemoveRoute, SetStrategy, UnsetStrategy) on one real fw.Thread with real PIT-CS, dead nonce list, FIB (tree / hash table) and strategies; forwarding hints with two delegations in either order; FIB universes: all 81 subsets of {(/,N2),(/a,N2),(/a,N3),(/a/b,N4)} with costs {1,2}, each with and without a sibling route (/c,N4), as first step of the route slice, every ordered pair and triple of next-hop costs from {0,1,2^31,2^32,2^63-1,2^63,2^64-1} as first step of the cost slice, plus fixed FIBs with ties, a local and an ad-hoc next hop; every Interest SendPacket is compared with a three-valued reference (C02.nh/noback/best/first/drop/suppress/token); states de-duplicated on reference + white-box PIT-CS dump + FIB dump",
+		Rule: "BFS over histories of Interest arrivals (names /a,/a/b,/c; nonce fresh|repeated|absent; hop limit absent|0|1|2; forwarding hint none|in-region|in-nested-region|out-of-region|(out,in)|(in,out)|(out,out'), producer regions [/r], [/r/site,/r], [/r,/r/site]; NextHopFaceId none|N2|self|missing on a face with and one without consumer-controlled forwarding; local, non-local and ad-hoc arrival faces), Data arrivals (by name, echoing a live token), clock steps 100/400/600 ms and 5 s, and FIB/strategy changes between packets (AddRoute, RemoveRoute, SetStrategy, UnsetStrategy) on one real fw.Thread with real PIT-CS, dead nonce list, FIB (tree / hash table) and strategies; a dead-nonce slice (one name, nonce fresh|latest|the one before the latest from two faces, Data, clock steps 100/600 ms, dead nonce list configured with a 1 s lifetime) explored to depth 9-10 (thorough: 13, and to depth 7 without de-duplication); forwarding hints with two delegations in either order; FIB universes: all 81 subsets of {(/,N2),(/a,N2),(/a,N3),(/a/b,N4)} with costs {1,2}, each with and without a sibling route (/c,N4), as first step of the route slice, every ordered pair and triple of next-hop costs from {0,1,2^31,2^32,2^63-1,2^63,2^64-1} as first step of the cost slice, plus fixed FIBs with ties, a local and an ad-hoc next hop; every Interest SendPacket is compared with a three-valued reference (C02.nh/noback/best/first/drop/suppress/token); states de-duplicated on reference + white-box PIT-CS dump + FIB dump + dead-nonce expiry-queue items of repeatable nonces. Separately, the real table.DeadNonceList on its own (dnl.go): histories of Insert (2 names x 2 nonces), clock steps 0.4/0.7/1.0 x the configured lifetime (6 s, 600 ms; thorough also 100 ms) with and without a reaper pass, RemoveExpiredEntries alone, Find of every key after every step, against a three-valued record-lifetime reference (C02.drop: recorded at t => found before t+L; C02.first: never recorded => not found), with de-duplication (to the fixpoint, reached at depth 9) and as a history search without de-duplication over a two-key alphabet (depth 6 / 7)",
 		Assumptions: []string{
 			"faces are simulated at the dispatch.Face seam (verif/harness/fwsim): a received frame becomes a defn.Pkt exactly as NDNLPLinkService.handleIncomingFrame + dispatchInterest/dispatchData build it; NextHopFaceId is honoured only on faces with local fields enabled; one forwarding thread (id 0)",
 			"'usable' is three-valued: a next hop equal to a point-to-point arrival face is unusable (C02.noback); a next hop that is the ad-hoc arrival face, that itself holds an in-record of the same PIT entry, or that is non-local while the decremented hop limit is 0, may or may not be used; every other next hop of the LPM entry must count as usable",
-			"'recorded as dead' is read from the real dead nonce list before the arrival; 'still pending from another face' = an unexpired record of the same PIT entry (name, selectors, forwarding hint) in the reference; same-nonce retransmissions from the same face, repeated nonces that are neither dead nor pending, retransmissions outside the suppression window, and retransmissions that carry NextHopFaceId may or may not be forwarded",
+			"WHICH nonces are recorded as dead is read from the real dead nonce list before the arrival (the property text does not say when a nonce is to be recorded, so no own 'must be dead by now' set is kept: e.g. whether the replaced nonce of an aggregated retransmission is recorded is not judged); HOW LONG a record lasts is not adopted: a (name, nonce) first seen in the list at t, or inserted into the list on its own while not listed, must be found until t + the configured lifetime; a report of an entry that is already listed may or may not extend it (the shipped code keeps the older expiry); when records disappear is left to C08; 'still pending from another face' = an unexpired record of the same PIT entry (name, selectors, forwarding hint) in the reference; same-nonce retransmissions from the same face, repeated nonces that are neither dead nor pending, retransmissions outside the suppression window, and retransmissions that carry NextHopFaceId may or may not be forwarded",
 			"whether Data consumes a pending Interest and when expired records disappear is adopted from the white-box PIT dump (C01 and C08 judge that); upstream transmission times and nonces are tracked from the observed sends only, never from the forwarder's out-records",
 			"equal canonical state (reference entries with record/transmission ages saturated at expiry and at the 500 ms window, reference FIB and strategy choices, per-name nonce and dead-nonce status, cache contents, private PIT-CS dump with queue priorities, private FIB dump) implies equal futures",
 		},
@@ -788,13 +866,14 @@ func sweep(rep *report.Reporter, cfg string, depth int) map[string]int {
 	for k := range stats {
 		delete(stats, k)
 	}
-	s := build(cfg).(*sys)
+	s := build(cfg)
+	do := s.(explore.Replayer)
 	var rec func(h []explore.Op)
 	rec = func(h []explore.Op) {
 		in := s.New()
 		for i, op := range h {
 			if i < len(h)-1 {
-				s.Do(in, op)
+				do.Do(in, op)
 				continue
 			}
 			for _, v := range s.Apply(in, op) {
